@@ -63,6 +63,45 @@ for j = range lim {
 	YIELD(int(j) + 30)
 }
 RETNIL`, "range:int-const-typed-key"),
+		G("range-untyped-constant-assigned-to-interface-typed-key", `
+var k any = "before"
+for k = range 3 {
+	YIELD(k.(int) + 40)
+}
+YIELD(k.(int))
+var w any
+for w = range 0 {
+	YIELD(-1)
+}
+tr.V(1, w == nil)
+RETNIL`, "range:int-const-interface-key"),
+		G("range-untyped-constant-assigned-to-typed-non-identifier-key", `
+var a [2]uint8
+n := 0
+next := func() int { n++; return tr.V(1, n%2) }
+for a[next()] = range 3 {
+	YIELD(int(a[0])*10 + int(a[1]))
+}
+type rec struct{ f int8 }
+var s rec
+for s.f = range 2 {
+	YIELD(int(s.f) + 50)
+}
+p := new(int16)
+for *p = range 2 {
+	YIELD(int(*p) + 60)
+}
+type count int32
+var cs [1]count
+for cs[0] = range 2 {
+	YIELD(int(cs[0]) + 70)
+}
+type octet = uint8
+m := map[string]octet{}
+for m["k"] = range 2 {
+	YIELD(int(m["k"]) + 80)
+}
+RETNIL`, "range:int-const-typed-nonident-key"),
 		G("range-assign-form-value-operand-depends-on-key", `
 xs := []int{10, 20, 30}
 a := make([]int, 4)
